@@ -107,15 +107,18 @@ def runUpdateAttr (k : UKind) (e : UEnv) (nested : Option (List (Nat × Option B
     else (CKR.OK, setA o e.selfTy (.mechs ((chunks8 (e.len / 8) e.bytes).foldl (fun acc m => insertAscN m acc) [])))
   | .unknown => (oRv, o)
 
+/-- what `P11Attribute::update(token, isPrivate, pValue, ulValueLen, op)` sees -/
+def mkEnv (d : AttrDesc) (t : TEntry) (op : Nat) (isPrivate soIn : Bool) : UEnv :=
+  { selfTy := d.ty, checks := d.checks, size := d.size, val := t.val, len := t.len, op := op,
+    isPrivate := isPrivate, soIn := soIn }
+
 /-- `P11Attribute::update` -/
 def updateAttribute (d : AttrDesc) (t : TEntry) (op : Nat) (isPrivate soIn : Bool) (o : Attrs) (oRv : RV) : RV × Attrs :=
-  let e : UEnv := { selfTy := d.ty, checks := d.checks, size := d.size, val := t.val, len := t.len, op := op,
-                    isPrivate := isPrivate, soIn := soIn }
-  match runProg e Gen.genericUpdate o with
+  match runProg (mkEnv d t op isPrivate soIn) Gen.genericUpdate o with
   | .done rv o' => (rv, o')
   | .fell o' => (CKR.GENERAL_ERROR, o')
   | .base o' => (CKR.GENERAL_ERROR, o')
-  | .call o' => runUpdateAttr d.upd e t.nested o' oRv
+  | .call o' => runUpdateAttr d.upd (mkEnv d t op isPrivate soIn) t.nested o' oRv
 
 /-- the loop of `P11Object::saveTemplate` over the template entries -/
 def applyEntries (cd : ClassDesc) (op : Nat) (isPrivate soIn : Bool) (oRv : RV) : Template → Attrs → RV × Attrs
